@@ -82,9 +82,69 @@ def list_scenario(st, tier):
     return prog, g, cfg, ops
 
 
+def has_rsz_foreach(prog):
+    """a foreach whose list is a random-size list (shape of known finding KF-C02-RANDSZ-FOREACH)"""
+    rsz = set()
+    for c in prog["classes"]:
+        for f in c.get("fields", []):
+            if f.get("rsz"):
+                rsz.add(f["n"])
+
+    def walk(stmts):
+        for s_ in stmts:
+            if s_["t"] == "foreach":
+                if s_["p"] and s_["p"][0] in rsz:
+                    return True
+                if walk(s_["body"]):
+                    return True
+            elif s_["t"] == "if":
+                if walk(s_["then"]) or walk(s_.get("else") or []) or any(walk(b) for (_c, b) in s_.get("elifs", [])):
+                    return True
+            elif s_["t"] == "implies" and walk(s_["body"]):
+                return True
+        return False
+    return any(walk(b["stmts"]) for c in prog["classes"] for b in c.get("blocks", []))
+
+
+def rsz_scenario(st, tier):
+    """list program with random-size lists (size ranges, foreach bodies, fixed-size neighbours):
+    too large to enumerate, judged one-sidedly by a sampled witness"""
+    def build(rng):
+        cfg = {"widths": [2, 3], "signed": False, "depth": 1, "max_stmts": 2, "max_blocks": 2, "ps": False,
+               "shifts": False, "divmod": False, "arith": ["+", "-"], "stmts": ["expr", "expr", "in"],
+               "nonrand": True}
+        g = progs.ListGen(rng, cfg)
+        for _ in range(8):
+            prog = g.list_program(allow_randsz=True, allow_obj=False, gates=("randsz-aggregate",))
+            if any(f.get("rsz") for f in prog["classes"][-1]["fields"]):
+                break
+        return prog, g, cfg
+    prog, g, cfg = scen.prefer_sat(st, build, lambda o: "K0", p_free=0.1)
+    P = refsem.Prog(prog)
+    nr = scen.nonrand_fields(prog, "K0")
+    orng = st.ops
+    go = progs.Gen(orng, cfg)
+    ops = [{"op": "new", "cls": "K0"}, {"op": "seed", "p": 0, "k": st.lib.randint(0, 1 << 30)}]
+    own = progs.fields_with_paths(P.cls("K0"))[0]
+    for _ in range(orng.randint(4, 12 if tier == "quick" else 30)):
+        r = orng.random()
+        if r < 0.6:
+            ops.append({"op": "randomize", "p": 0})
+        elif r < 0.8 and nr:
+            f = orng.choice(nr)
+            ops.append({"op": "assign", "p": 0, "path": [f["n"]], "v": go.in_range_value(f)})
+        else:
+            ops.append({"op": "rw", "p": 0, "inline": [progs.simple_stmt(orng, own)] if own else []})
+    return prog, g, cfg, ops
+
+
 def generate(seed, tier):
     st = Streams(seed)
-    kind = st.prog.choice(["flat"] * 6 + ["list"] * 3 + ["rl"] * 2)
+    kind = st.prog.choice(["flat"] * 6 + ["list"] * 3 + ["rl"] * 2 + ["rsz"] * 2)
+    if kind == "rsz":
+        prog, g, cfg, ops = rsz_scenario(st, tier)
+        return {"prop": ID, "seed": seed, "prog": prog, "ops": ops, "kind": kind,
+                "probe_seed": st.fault.randint(0, 1 << 30)}
     if kind == "list":
         prog, g, cfg, ops = list_scenario(st, tier)
         frng = st.fault
@@ -150,7 +210,40 @@ def tags(rec, viol):
         t.append("exc:" + str(d.get("exc")))
     if d.get("where"):
         t.append("where:" + str(d.get("where")))
+    if rec.get("kind") == "rsz" and has_rsz_foreach(rec["prog"]) and "before" in d:
+        # KF-C02-RANDSZ-FOREACH: foreach bodies are enforced on the hidden pre-extended slots of a
+        # random-size list.  That explains a failure only if the system has no solution with every
+        # such list at its largest admitted size (there the two readings coincide); if it has one,
+        # the failure is something else and stays untagged.
+        import random as _r
+        P = refsem.Prog(rec["prog"])
+        full = max_sizes(rec["prog"])
+        op = rec["ops"][d["op"]] if isinstance(d.get("op"), int) and d["op"] < len(rec["ops"]) else {}
+        wit = refsem.sample_witness(P, "K0", d["before"], _r.Random(0), None, None,
+                                    refsem.class_rangelists(P, "K0"), op.get("inline"), 1500, sizes=full)
+        if wit is None:
+            t.append("randsz-foreach")
     return t
+
+
+def max_sizes(prog):
+    """largest length the generated size statements admit, per random-size list"""
+    out = {}
+    for c in prog["classes"]:
+        for b in c.get("blocks", []):
+            for s_ in b["stmts"]:
+                e = s_.get("e") if s_["t"] == "expr" else None
+                if not e:
+                    continue
+                if e["t"] == "in" and isinstance(e["e"], dict) and e["e"].get("t") == "size":
+                    hi = max(x[1] if isinstance(x, list) else x for x in e["rl"])
+                    n = e["e"]["p"][0]
+                    out[n] = min(out.get(n, hi), hi)
+                elif e["t"] == "bin" and isinstance(e["l"], dict) and e["l"].get("t") == "size" \
+                        and e["op"] in ("<=", "==") and e["r"].get("t") == "lit":
+                    n = e["l"]["p"][0]
+                    out[n] = min(out.get(n, e["r"]["v"]), e["r"]["v"])
+    return out
 
 
 def execute(rec):
@@ -177,8 +270,32 @@ def execute(rec):
         p = op["p"]
         pt = w.parties[p]
         before = w.tree(p)
-        rpaths = w.rand_paths(p, before)
         inline = op.get("inline")
+        if rec.get("kind") == "rsz":
+            # one-sided: a sampled witness proves satisfiability, a returned result is judged
+            wit = refsem.sample_witness(P, pt.cname, before, prng, pt.rand_off, pt.modes, pt.rangelists,
+                                        inline, 300)
+            out = w.apply(op)
+            obs.append((oi, kind, out["st"], out.get("exc")))
+            detail = {"op": oi, "kind": kind, "before": before, "outcome": out}
+            if out["st"] == "exc":
+                detail["exc"], detail["where"] = out.get("exc"), out.get("where")
+                viol.append({"inv": "C02.foreign_exception", "detail": detail,
+                             "cls": "C02.foreign_exception/%s/%s" % (out.get("exc"), out.get("where"))})
+                break
+            if wit is not None:
+                nontrivial = True
+                stats["sat_calls"] += 1
+                stats["witness_calls"] = stats.get("witness_calls", 0) + 1
+                if out["st"] == "solvefail":
+                    detail["witness"] = wit
+                    viol.append({"inv": "C02.spurious_failure", "detail": detail,
+                                 "cls": "C02.spurious_failure/randsz"})
+                    break
+            elif out["st"] == "ok":
+                stats["unjudged_ok"] = stats.get("unjudged_ok", 0) + 1
+            continue
+        rpaths = w.rand_paths(p, before)
         key = kernel.digest([before, inline, sorted(pt.rand_off), pt.modes, pt.rangelists])
         sols = None
         try:
